@@ -1086,7 +1086,9 @@ func (g *GoFakeS3) ensureBucketExists(bucket string) error {
 		return err
 	}
 	if !exists && g.autoBucket {
-		if err := g.storage.CreateBucket(bucket); err != nil {
+		// Another request may have created the bucket since the check above;
+		// that is not a failure:
+		if err := g.storage.CreateBucket(bucket); err != nil && !IsAlreadyExists(err) {
 			g.log.Print(LogErr, "autobucket create failed:", err)
 			return ResourceError(ErrNoSuchBucket, bucket)
 		}
